@@ -588,7 +588,8 @@ def run(ck):
                               replay)
         clean_a.append(ok)
         if status == "ok":
-            items.append("(let t := %s in [fcase_fmt %s t; fcase_parse t %s; fcase_exact %s t])" % (text_coq(text), ev_coq(es), porc_coq(parsed), ev_coq(es)))
+            items.append("(let t := %s in let es := %s in [fcase_lines es t; fcase_parse t %s; fcase_fmt es t; fcase_exact es t])" % (
+                text_coq(text), ev_coq(es), porc_coq(parsed)))
             item_case.append(ci)
     ck.cov["format_case_origins"] = origins
     ck.cov["checker_verdicts_a"] = chk_stats
@@ -663,6 +664,7 @@ def run(ck):
     n_model = 0
     t0 = time.time()
     exact_diff = 0
+    squeeze_diff = 0
     mism = []
     if items:
         bad = coq_false_ix(ck, "c07f", "Base Register Jepsen JepsenRun", items, 16 if len(items) > 600 else 4)
@@ -671,11 +673,14 @@ def run(ck):
         n_model += len(items)
         for (ii, sub) in bad:
             ci = item_case[ii]
-            if sub == 2:
+            if sub == 3:     # information only: byte-exact text
                 exact_diff += 1
                 continue
+            if sub == 2:     # information only: text up to column alignment
+                squeeze_diff += 1
+                continue
             if clean_a[ci]:
-                mism.append(("format" if sub == 0 else "parse", fcases[ci][2], lines[ci][:600], fres[ci][:600], items[ii][:1500]))
+                mism.append(("format (what the parser reads in each line)" if sub == 0 else "parse", fcases[ci][2], lines[ci][:600], fres[ci][:600], items[ii][:1500]))
     if pitems:
         bad = coq_false_ix(ck, "c07p", "Base Jepsen Recorder RecorderRun", pitems, 16 if len(pitems) > 600 else 4)
         if bad is None:
@@ -688,6 +693,7 @@ def run(ck):
     tm["coq_eval"] = round(time.time() - t0, 1)
     ck.cov["traces_validated_against_impl"] = n_model
     ck.cov["log_text_cases_not_byte_identical_to_model"] = exact_diff
+    ck.cov["log_text_cases_differing_from_model_beyond_alignment"] = squeeze_diff
     if mism:
         ck.cov["model_disagreements"] = len(mism)
         what, origin, cin, cobs, term = mism[0]
